@@ -407,6 +407,11 @@ func dedupStrings(s []string) []string {
 // target — in fn itself or in repository functions it calls statically (to
 // depth 4) — and returns it with the call stack that leads to it.
 func reachCall(c *Ctx, fn *ssa.Function, target string, stack []*ssa.Call, depth int) (*ssa.Call, []*ssa.Call) {
+	return reachCallPred(c, fn, func(call *ssa.Call) bool { return ssau.CallName(call) == target }, stack, depth)
+}
+
+// reachCallPred is reachCall for a call recognised by a predicate.
+func reachCallPred(c *Ctx, fn *ssa.Function, is func(*ssa.Call) bool, stack []*ssa.Call, depth int) (*ssa.Call, []*ssa.Call) {
 	var found *ssa.Call
 	var fstack []*ssa.Call
 	ssau.ForEachInstr(fn, false, func(in ssa.Instruction) {
@@ -414,7 +419,7 @@ func reachCall(c *Ctx, fn *ssa.Function, target string, stack []*ssa.Call, depth
 		if !ok || found != nil {
 			return
 		}
-		if ssau.CallName(call) == target {
+		if is(call) {
 			found, fstack = call, stack
 		}
 	})
@@ -431,7 +436,7 @@ func reachCall(c *Ctx, fn *ssa.Function, target string, stack []*ssa.Call, depth
 			return
 		}
 		ns := append(append([]*ssa.Call(nil), stack...), call)
-		if f2, s2 := reachCall(c, g, target, ns, depth-1); f2 != nil {
+		if f2, s2 := reachCallPred(c, g, is, ns, depth-1); f2 != nil {
 			found, fstack = f2, s2
 		}
 	})
